@@ -368,37 +368,82 @@ def rule_bracket_swap(ctx):
     evaluated on the order domain: afterwards the two ends must hold each other's former value (a swap without a
     temporary leaves both ends equal: the bracket has zero width and the step lands at the wrong place)."""
     from . import orders
+    from .. import normal
     tu = cfront.load_tu('integrator_whfast.c')
-    fn = tu.func(SOLVER)
-    ends = None
-    for e in walk(cfront.body(fn)):
-        if is_assign(e) and e['opcode'] == '=':
-            r0 = strip(e['inner'][1], casts=True)
-            if r0.get('kind') == 'BinaryOperator' and r0['opcode'] == '/':
-                num = strip(r0['inner'][0], casts=True)
-                if num.get('kind') == 'BinaryOperator' and num['opcode'] == '+' and all(strip(x, casts=True).get('kind') == 'DeclRefExpr' for x in num['inner']) and render(r0['inner'][1]) in ('2.', '2.0', '2'):
-                    ends = tuple(strip(x, casts=True)['referencedDecl']['name'] for x in num['inner'])
-    anchor(ends is not None, 'bisection midpoint X = (X_max + X_min)/2 in the Kepler solver')
+    fns = normal.with_new_helpers(tu, SOLVER)      # the solver and helpers split off from it (bisection in its own function)
+
+    def plain(x):
+        """name of an end: X_min, or *X_min where the bracket is handed out through pointers"""
+        x = strip(x, casts=True)
+        if x.get('kind') == 'UnaryOperator' and x.get('opcode') == '*':
+            x = strip(x['inner'][0], casts=True)
+        return x['referencedDecl']['name'] if x.get('kind') == 'DeclRefExpr' else None
     n = 0
-    for ifs in walk(cfront.body(fn)):
-        if ifs.get('kind') != 'IfStmt' or len(ifs['inner']) != 2:
+    found_mid = False
+    for fn in fns:
+        ends = None
+        for e in walk(cfront.body(fn)):
+            if is_assign(e) and e['opcode'] == '=' or e.get('kind') == 'VarDecl' and 'init' in e:
+                src = e['inner'][1] if is_assign(e) else [c for c in e.get('inner', []) if c.get('kind') not in ('FullComment',)][-1]
+                r0 = strip(src, casts=True)
+                if r0.get('kind') == 'BinaryOperator' and r0['opcode'] == '/':
+                    num = strip(r0['inner'][0], casts=True)
+                    if num.get('kind') == 'BinaryOperator' and num['opcode'] == '+' and all(strip(x, casts=True).get('kind') == 'DeclRefExpr' for x in num['inner']) and render(r0['inner'][1]) in ('2.', '2.0', '2'):
+                        ends = tuple(strip(x, casts=True)['referencedDecl']['name'] for x in num['inner'])
+        if ends is not None:
+            found_mid = True
+        # candidate names of the two ends in this function: the averaged locals, or pointer parameters written through
+        names = set(ends or ())
+        for e in walk(cfront.body(fn)):
+            if is_assign(e):
+                l0 = strip(e['inner'][0], casts=True)
+                if l0.get('kind') == 'UnaryOperator' and l0.get('opcode') == '*' and plain(l0):
+                    names.add(plain(l0))
+        if len(names) < 2:
             continue
-        written = {render(e['inner'][0]) for e in walk(ifs['inner'][1]) if is_assign(e)}
-        if not (written & set(ends)) or not written <= set(ends) | {d['name'] for d in walk(ifs['inner'][1]) if d.get('kind') == 'VarDecl'}:
-            continue
-        srcs = [render(e['inner'][1]) for e in walk(ifs['inner'][1]) if is_assign(e)]
-        if not all(s_ in ends or s_ in {d['name'] for d in walk(ifs['inner'][1]) if d.get('kind') == 'VarDecl'} for s_ in srcs):
-            continue
-        n += 1
-        env = {ends[0]: 1.0, ends[1]: 2.0}
-        try:
-            orders.run(ifs['inner'][1], env)
-        except orders.Unsupported as ex:
-            raise AnalysisError('R03.8: the bracket exchange at src/integrator_whfast.c:%s is no longer made of copies (%s)' % (line_of(ifs), ex))
-        if (env[ends[0]], env[ends[1]]) != (2.0, 1.0):
-            ctx.report('R03.8', 'bisection:swap', 'src/integrator_whfast.c:%s %s' % (line_of(ifs), SOLVER),
-                       'under %s the bracket ends (%s, %s) = (1, 2) become (%g, %g) instead of being exchanged: the bracket collapses and the bisection returns its end point'
-                       % (render(ifs['inner'][0]), ends[0], ends[1], env[ends[0]], env[ends[1]]))
+        for ifs in walk(cfront.body(fn)):
+            if ifs.get('kind') != 'IfStmt':
+                continue
+            cond = render(ifs['inner'][0]).replace(' ', '')
+            if not re.match(r'^\(\w*dt<0(\.0?)?\)$', cond):
+                continue
+            # idiom 1: `if (dt<0) { exchange }` made of copies
+            if len(ifs['inner']) == 2:
+                written = {plain(e['inner'][0]) for e in walk(ifs['inner'][1]) if is_assign(e)}
+                local = {d['name'] for d in walk(ifs['inner'][1]) if d.get('kind') == 'VarDecl'}
+                if not (written & names) or not written <= names | local:
+                    continue
+                two = sorted(written & names)
+                if len(two) != 2:
+                    continue
+                n += 1
+                env = {two[0]: 1.0, two[1]: 2.0}
+                try:
+                    orders.run(ifs['inner'][1], env)
+                except orders.Unsupported as ex:
+                    raise AnalysisError('R03.8: the bracket exchange at src/integrator_whfast.c:%s is no longer made of copies (%s)' % (line_of(ifs), ex))
+                if (env[two[0]], env[two[1]]) != (2.0, 1.0):
+                    ctx.report('R03.8', 'bisection:swap', 'src/integrator_whfast.c:%s %s' % (line_of(ifs), fn['name']),
+                               'under %s the bracket ends (%s, %s) = (1, 2) become (%g, %g) instead of being exchanged: the bracket collapses and the bisection returns its end point'
+                               % (render(ifs['inner'][0]), two[0], two[1], env[two[0]], env[two[1]]))
+            # idiom 2: `if (dt<0) { min = A; max = B; } else { min = B; max = A; }` - the branches are mirror images
+            elif len(ifs['inner']) == 3:
+                br = []
+                for blk in ifs['inner'][1:]:
+                    m_ = {}
+                    for e in walk(blk):
+                        if is_assign(e) and e['opcode'] == '=' and plain(e['inner'][0]) in names:
+                            m_[plain(e['inner'][0])] = render(e['inner'][1]).replace(' ', '')
+                    br.append(m_)
+                if not br[0] or set(br[0]) != set(br[1]) or len(br[0]) != 2:
+                    continue
+                n += 1
+                k1, k2 = sorted(br[0])
+                if not (br[0][k1] == br[1][k2] and br[0][k2] == br[1][k1] and br[0][k1] != br[0][k2]):
+                    ctx.report('R03.8', 'bisection:swap', 'src/integrator_whfast.c:%s %s' % (line_of(ifs), fn['name']),
+                               'the bracket ends for a negative step (%s) are not the exchanged ends of the positive step (%s): the bracket is not mirrored'
+                               % (br[0], br[1]))
+    anchor(found_mid, 'bisection midpoint X = (X_max + X_min)/2 in the Kepler solver')
     ctx.covered('R03.8', 'bracket exchanges of the bisection fallback (negative step) evaluated on the order domain', n, floor=1)
 
 
